@@ -453,7 +453,11 @@ def run(eng: Engine, ck: Check):
     wloop_fn, rloop_fn = pd.methods['serialize_into'], pd.methods['deserialize']
     ck.visited(wloop_fn)
     ck.visited(rloop_fn)
-    VAL, OBJ = 'VAL', 'OBJ'
+    VAL, OBJ, META = 'VAL', 'OBJ', 'META'
+
+    def meta_expr(x: ast.AST, env: dict) -> bool:
+        """`x` reads the field's metadata mapping, directly or through a local that was bound to it."""
+        return mentions_attr(x, 'metadata') or any(isinstance(n_, ast.Name) and env.get(n_.id) is META for n_ in ast.walk(x))
 
     class Reach(Exception):
         pass
@@ -476,7 +480,7 @@ def run(eng: Engine, ck: Check):
             return any(self.is_target(x) for x in ast.walk(node))
 
         def truthy(self, v, e) -> bool:
-            if v is OBJ or v is VAL:
+            if v is OBJ or v is VAL or v is META:
                 raise AnalysisError(f'R-C01-DRIVER: the truth of `{unparse(e)}` is outside the decision-table fragment')
             return bool(v)
 
@@ -488,6 +492,8 @@ def run(eng: Engine, ck: Check):
                 return e.value
             if isinstance(e, ast.Name):
                 return env.get(e.id, OBJ)
+            if isinstance(e, ast.Attribute) and e.attr == 'metadata':
+                return META
             if isinstance(e, ast.UnaryOp) and isinstance(e.op, ast.Not):
                 return not self.truthy(self.ev(e.operand, env), e.operand)
             if isinstance(e, ast.BoolOp):
@@ -505,7 +511,7 @@ def run(eng: Engine, ck: Check):
                 return env[e.target.id]
             if isinstance(e, ast.Compare) and len(e.ops) == 1:
                 op, l, r = e.ops[0], e.left, e.comparators[0]
-                if isinstance(op, (ast.In, ast.NotIn)) and mentions_attr(r, 'metadata') and self.meta_key(l) is not None:
+                if isinstance(op, (ast.In, ast.NotIn)) and meta_expr(r, env) and self.meta_key(l) is not None:
                     return self.meta_key(l) == isinstance(op, ast.In)
                 if isinstance(op, (ast.Is, ast.IsNot, ast.Eq, ast.NotEq)) and (is_none_const(r) or is_none_const(l)):
                     v = self.ev(l if is_none_const(r) else r, env)
@@ -520,7 +526,7 @@ def run(eng: Engine, ck: Check):
                     if is_len(l) and not is_len(r):        # len(message) > pos;  len(message) <= pos
                         return self.present if isinstance(op, ast.Gt) else (not self.present) if isinstance(op, ast.LtE) else self._bad(e)
                 return OBJ
-            if isinstance(e, ast.Subscript) and mentions_attr(e.slice, 'metadata') and any(
+            if isinstance(e, ast.Subscript) and meta_expr(e.slice, env) and any(
                     isinstance(c_, ast.Constant) and c_.value in ('if_true', 'if_false') for c_ in ast.walk(e.slice)):
                 return self.ctrl            # field_map[f.metadata['if_true']]: the controlling field's parsed value
             if isinstance(e, ast.Call):
@@ -528,7 +534,7 @@ def run(eng: Engine, ck: Check):
                 if nm == 'bool' and len(e.args) == 1:
                     return self.truthy(self.ev(e.args[0], env), e.args[0])
                 if nm == 'getattr' and len(e.args) >= 2:
-                    if mentions_attr(e.args[1], 'metadata'):
+                    if meta_expr(e.args[1], env):
                         return self.ctrl    # the controlling field's value on the object
                     if isinstance(e.args[1], ast.Attribute) and e.args[1].attr == 'name':
                         return VAL if self.present else None      # the field's own value
